@@ -161,6 +161,14 @@ let mon_c15 (case : string list) (result : string) : string =
        else if panics > 0 then "FAIL a call panicked in the caller"
        else "FAIL daemon thread died or no longer serves"
      | _ -> "BAD result format")
+  | [ ("v_nc" | "v_hc"); h ] when result <> "PANIC" && result <> "HANG" && result <> "CRASH" && result <> "SKIP" ->
+    (* rename_stays_encodable on the implementation's output: a name whose labels fit is
+       renamed to a name whose labels fit *)
+    (match utf8 h, String.split_on_char ' ' result with
+     | Some s, [ "OK"; r ] ->
+       if labels_fit s && not (labels_fit (bytes_of_hex r)) then "FAIL renamed name has a label above 63 bytes"
+       else "PASS"
+     | _ -> "PASS")
   | _ ->
     let panics = if result = "PANIC" || result = "HANG" || result = "CRASH" then 1 else 0 in
     if chk_C15 { o_call_panics = n_of_int panics; o_daemon_died = false; o_serves_after = true }
